@@ -407,6 +407,29 @@ func checkStruct(c structCase) ev.Outcome {
 	if idx.Len() != len(bs) || idx.NumEdges() != total {
 		fails = append(fails, fail{"index-counts", fmt.Sprintf("Len()=%d NumEdges()=%d, the collection has %d shapes with %d edges", idx.Len(), idx.NumEdges(), len(bs), total)})
 	}
+	// 1c. the edge iterator enumerates exactly the edges of every shape, in (shape id, edge id) order
+	{
+		it := s2.NewEdgeIterator(idx)
+		n := 0
+	scan:
+		for si, b := range bs {
+			for ei, ed := range b.edges {
+				if it.Done() {
+					fails = append(fails, fail{"edge-iterator", fmt.Sprintf("EdgeIterator is done after %d of %d edges", n, total)})
+					break scan
+				}
+				if int(it.ShapeID()) != si || int(it.EdgeID()) != ei || it.Edge() != ed || it.ShapeEdgeID() != (s2.ShapeEdgeID{ShapeID: int32(si), EdgeID: int32(ei)}) {
+					fails = append(fails, fail{"edge-iterator", fmt.Sprintf("EdgeIterator position %d is (shape %d, edge %d, %v), the collection has (shape %d, edge %d, %v)", n, it.ShapeID(), it.EdgeID(), it.Edge(), si, ei, ed)})
+					break scan
+				}
+				it.Next()
+				n++
+			}
+		}
+		if n == total && !it.Done() {
+			fails = append(fails, fail{"edge-iterator", fmt.Sprintf("EdgeIterator is not done after all %d edges", total)})
+		}
+	}
 	{
 		limit := 1 + c.Sel%(total+2)
 		want := 0
